@@ -211,3 +211,122 @@ func SolveAll(obs []*Oblig, dir string, timeout time.Duration, thorough bool) {
 	}
 	wg.Wait()
 }
+
+// batchFile renders all obligations of one function as a single incremental script: facts are
+// asserted in program order and each obligation is checked between (push) and (pop) at the
+// point where it was generated.
+func batchFile(fc *FnCtx, obs []*Oblig) string {
+	var sb strings.Builder
+	sb.WriteString("(set-logic ALL)\n")
+	sb.WriteString(preludeAny)
+	for _, d := range fc.e.structDecls() {
+		sb.WriteString(d + "\n")
+	}
+	for _, d := range fc.e.boxDecls() {
+		sb.WriteString(d + "\n")
+	}
+	for _, d := range fc.decls {
+		if d != "" {
+			sb.WriteString(d + "\n")
+		}
+	}
+	k := 0
+	emit := func(o *Oblig) {
+		sb.WriteString("(push 1)\n")
+		if o.Reach != "" && o.Reach != "true" {
+			sb.WriteString("(assert " + o.Reach + ")\n")
+		}
+		if !o.Cover {
+			sb.WriteString("(assert (not " + o.Goal + "))\n")
+		}
+		sb.WriteString("(check-sat)\n(pop 1)\n")
+	}
+	for i := 0; i <= len(fc.facts); i++ {
+		for k < len(obs) && obs[k].NFacts <= i {
+			emit(obs[k])
+			k++
+		}
+		if i < len(fc.facts) {
+			sb.WriteString("(assert " + fc.facts[i] + ")\n")
+		}
+	}
+	return sb.String()
+}
+
+// SolveBatch tries all obligations of a function in one incremental z3 run; obligations it
+// decides as expected (unsat, or sat for covers) are final, the rest are left for the portfolio.
+func SolveBatch(fc *FnCtx, dir string, perCheckMs int) {
+	var obs []*Oblig
+	for _, o := range fc.obligs {
+		if len(o.ExtraAs) == 0 {
+			obs = append(obs, o)
+		}
+	}
+	if len(obs) < 3 {
+		return
+	}
+	// obligations are generated in order of NFacts
+	file := filepath.Join(dir, "batch_"+sanitize(fc.key)+".smt2")
+	os.WriteFile(file, []byte(batchFile(fc, obs)), 0o644)
+	procSem <- struct{}{}
+	t0 := time.Now()
+	total := time.Duration(perCheckMs*len(obs))*time.Millisecond + 5*time.Second
+	if total > 120*time.Second {
+		total = 120 * time.Second
+	}
+	ctx, cancel := context.WithTimeout(context.Background(), total)
+	cmd := exec.CommandContext(ctx, "z3-new", fmt.Sprintf("-t:%d", perCheckMs), file)
+	var buf bytes.Buffer
+	cmd.Stdout = &buf
+	cmd.Run()
+	cancel()
+	<-procSem
+	secs := time.Since(t0).Seconds()
+	lines := strings.Split(strings.TrimSpace(buf.String()), "\n")
+	var answers []string
+	for _, l := range lines {
+		l = strings.TrimSpace(l)
+		switch l {
+		case "sat", "unsat", "unknown", "timeout":
+			answers = append(answers, l)
+		default:
+			if strings.HasPrefix(l, "(error") {
+				fc.e.warn("%s: batch solver error: %s", fc.short, l)
+				return
+			}
+		}
+	}
+	per := secs / float64(len(obs))
+	for i, o := range obs {
+		if i >= len(answers) {
+			break
+		}
+		a := answers[i]
+		if (a == "unsat" && !o.Cover) || (a == "sat" && o.Cover) {
+			o.result = &SolveResult{Status: a, Solver: "z3-5.1.0", Seconds: per, File: file, All: map[string]string{"z3-5.1.0 (incremental)": a}}
+		}
+	}
+}
+
+// SolveFns: batch pass per function, then the portfolio for what is left.
+func SolveFns(fcs []*FnCtx, extra []*Oblig, dir string, timeout time.Duration, thorough bool) {
+	var wg sync.WaitGroup
+	for _, fc := range fcs {
+		wg.Add(1)
+		go func(fc *FnCtx) {
+			defer wg.Done()
+			SolveBatch(fc, dir, 3000)
+		}(fc)
+	}
+	wg.Wait()
+	var rest []*Oblig
+	for _, fc := range fcs {
+		for _, o := range fc.obligs {
+			if o.result == nil || thorough {
+				rest = append(rest, o)
+			}
+		}
+	}
+	rest = append(rest, extra...)
+	SolveAll(rest, dir, timeout, thorough)
+}
